@@ -11,3 +11,6 @@ func (p Prm) VerifObjectWriter() ObjectWriter { return p.objWriter }
 func (p HeadPrm) VerifObjectWriter() ObjectWriter { return p.objWriter }
 
 func (p Prm) VerifInterceptHeaderBinary() func([]byte) error { return p.interceptHeaderBinaryFn }
+
+// VerifBuffer returns the header buffer and the length callback of the local HEAD path.
+func (p HeadPrm) VerifBuffer() ([]byte, func(int)) { return p.buffer, p.submitLenFn }
